@@ -399,7 +399,17 @@ pub(super) fn translate_literal(l: Literal, ctx: &Context) -> Result<sql_ast::Ex
             // value such as `a''b` or `\' OR 1=1 --` would be emitted as a
             // different string, or end the literal early. Double every quote here;
             // sqlparser then finds only doubled quotes and prints them unchanged.
-            sql_ast::Expr::Value(Value::SingleQuotedString(s.replace('\'', "''")).into())
+            //
+            // Dialects that treat a backslash inside '...' as an escape character
+            // need their backslashes doubled as well (`a\nb` must not become a
+            // line feed, `a\` must not swallow the closing quote).
+            let s = if ctx.dialect.string_literal_backslash_escape() {
+                s.replace('\\', "\\\\")
+            } else {
+                s
+            };
+            let s = s.replace('\'', "''");
+            sql_ast::Expr::Value(Value::SingleQuotedString(s).into())
         }
         Literal::Boolean(b) => sql_ast::Expr::Value(Value::Boolean(b).into()),
         Literal::Float(f) => sql_ast::Expr::Value(Value::Number(format!("{f:?}"), false).into()),
